@@ -46,6 +46,7 @@ func mxPPS(par int) []byte { return []byte{0x08, byte(par)} }
 
 type mxTrack struct {
 	bf    bool // H264 with frame reordering (muxer_bframes.go)
+	szf   bool // AV1: sequence headers travel with their obu_size field
 	codec string
 	rate  int
 	sr    int
@@ -289,7 +290,7 @@ func (r *mxRunner) Step(line string) []string {
 		r.useDir = a["dir"] == "1"
 		return nil
 	case "track":
-		r.tracks = append(r.tracks, &mxTrack{codec: a["codec"], rate: int(atoi64(a["rate"])), sr: int(atoi64(a["sr"])), bf: a["bf"] == "1"})
+		r.tracks = append(r.tracks, &mxTrack{codec: a["codec"], rate: int(atoi64(a["rate"])), sr: int(atoi64(a["sr"])), bf: a["bf"] == "1", szf: a["szf"] == "1"})
 		return nil
 	case "begin":
 		return []string{r.begin()}
@@ -361,6 +362,9 @@ func (r *mxRunner) begin() string {
 			tr.Codec = &codecs.Opus{ChannelCount: 2}
 		case "vp9", "av1", "h265":
 			tr.Codec = mxOtherCodec(t.codec)
+			if t.szf && t.codec == "av1" {
+				tr.Codec = &codecs.AV1{SequenceHeader: av1Sized(av1SeqHeaders[0])}
+			}
 			if t.bf && t.codec == "h265" {
 				tr.Codec = &codecs.H265{VPS: bf5VPS, SPS: bf5SPS, PPS: bf5PPS}
 			}
